@@ -313,9 +313,14 @@ func (f *Fleet) observe(actor Actor) {
 	if actor.Kind == "ls" && actor.Task != nil && actor.Task.Role == "syncloop" {
 		n := actor.Node
 		p := actor.Task.point
-		if p == "loadonce:after-txn" || (p == "sendonce:after-txn" && !n.Native) {
+		switch {
+		case p == "lmdb:end-write":
+			// the window opens when a write transaction that changed
+			// nothing has ended
 			f.emptyTxn[n] = !changedNodes[n]
-		} else {
+		case p == "loadonce:after-txn" || (p == "sendonce:after-txn" && !n.Native):
+			// still inside the window (env.Info() comes after this point)
+		default:
 			f.emptyTxn[n] = false
 		}
 	}
@@ -600,6 +605,8 @@ func (f *Fleet) RunWorkload() {
 			f.Sim.Logf("  partition %s for %s", n.Name, d)
 		}
 		f.lastNode = next
+		// everybody durably blocked or parked before looking at who returned
+		f.Sim.Quiesce()
 		f.reapCancelled()
 	}
 	f.Sim.Quiesce()
@@ -683,6 +690,7 @@ func (f *Fleet) Drain(d time.Duration) {
 	f.Bucket.Partition = map[string]time.Duration{}
 	f.Bucket.StoreFailures = map[string]int{}
 	f.Sim.Logf("-- drain for %s", d)
+	f.Sim.Quiesce()
 	f.reapCancelled()
 	for _, n := range f.stopped() {
 		if err := n.Start(); err != nil {
@@ -703,6 +711,7 @@ func (f *Fleet) Drain(d time.Duration) {
 		// An instance whose Sync returned (an upload that had exhausted its
 		// retry budget just before the faults stopped) is restarted, as a
 		// service manager would.
+		f.Sim.Quiesce()
 		f.reapCancelled()
 		parked := f.Sim.Quiesce()
 		if st := f.stopped(); len(st) > 0 {
